@@ -648,10 +648,12 @@ pub fn ts_prolog() -> String {
     " = (t: _Vec, i: number, v: any): number => { if (i < 0 || i >= t.length) { throw Error('Vec index out of bounds'); } t[i] = v; return 0; };\n",
   );
 
+  // `!x` is emitted as a JavaScript boolean while every other boolean value is a number, so
+  // boolean elements are compared as numbers.
   collector.push_str("const ");
   FunctionName::VEC_EQ.write_encoded(&mut collector, heap, table);
   collector.push_str(
-    " = (a: _Vec, b: _Vec): number => { if (a === b) return 1; if (a.length !== b.length) return 0; for (let i = 0; i < a.length; i++) { if (a[i] !== b[i]) return 0; } return 1; };\n",
+    " = (a: _Vec, b: _Vec): number => { if (a === b) return 1; if (a.length !== b.length) return 0; for (let i = 0; i < a.length; i++) { const x = typeof a[i] === 'boolean' ? Number(a[i]) : a[i], y = typeof b[i] === 'boolean' ? Number(b[i]) : b[i]; if (x !== y) return 0; } return 1; };\n",
   );
 
   collector
